@@ -199,6 +199,14 @@ class SchemaField:
                 raise ValueError("not isfinite number")
             if num_range and not (v >= num_range[0] and v <= num_range[1]):
                 raise ValueError(f"out of range {num_range}")
+            # int() / float() accept more than the FIX lexical space (white space,
+            #   '+', '_', exponents, non-ASCII digits): only plain decimals are valid
+            if num_type is int:
+                is_plain = re.fullmatch(r"-?[0-9]+", value)
+            else:
+                is_plain = re.fullmatch(r"-?([0-9]+\.?[0-9]*|\.[0-9]+)", value)
+            if not is_plain:
+                raise ValueError(f"not a plain decimal {num_type.__name__}: {value!r}")
             # all good
             return None
         except ValueError as exc:
